@@ -44,6 +44,7 @@ const (
 	OpBlockForever
 	OpEvalSymlinks
 	OpReadlink
+	OpPoll // a blocking channel operation found its channel not ready: park until another task made progress
 	opMax
 )
 
@@ -55,6 +56,7 @@ var opNames = [...]string{
 	OpNumCPU: "numcpu", OpNow: "now", OpSleep: "sleep", OpLookPath: "lookpath",
 	OpProcStart: "procstart", OpProcStdin: "procstdin", OpProcWait: "procwait",
 	OpNote: "note", OpBlockForever: "blockforever", OpEvalSymlinks: "evalsymlinks", OpReadlink: "readlink",
+	OpPoll: "chanwait",
 }
 
 func (o Op) String() string {
